@@ -137,8 +137,13 @@ void wbxml_tree_clb_wbxml_characters(void *ctx, WB_UTINY *ch, WB_ULONG start, WB
     /* Specific treatment for SyncML */
     switch (wbxml_tree_node_get_syncml_data_type(tree_ctx->current)) {
     case WBXML_SYNCML_DATA_TYPE_WBXML:
-        /* Deal with Embedded SyncML Documents - Parse WBXML */
-        if (wbxml_tree_from_wbxml(ch + start, length, WBXML_LANG_UNKNOWN, tree_ctx->tree->orig_charset, &tmp_tree) != WBXML_OK) {
+        /* Deal with Embedded SyncML Documents - Parse WBXML
+         * (a document embedded in an embedded document is not parsed: each parse has its own nesting
+         * limit, and documents referenced from a string table could otherwise multiply at every level) */
+        if ((tree_ctx->embedded_depth >= WBXML_MAX_EMBEDDED_DEPTH) ||
+            (wbxml_tree_from_wbxml_embedded(ch + start, length, WBXML_LANG_UNKNOWN, tree_ctx->tree->orig_charset,
+                                            tree_ctx->embedded_depth + 1, &tmp_tree) != WBXML_OK))
+        {
             /* Not parsable ? Just add it as a Text Node... */
             goto text_node;
         }
